@@ -85,6 +85,10 @@ func NewFileWriterWithName(filePath string, maxBlockSize int, swampName string) 
 // If swampName is set, creates a V3 file with the name stored after the header.
 // Otherwise creates a V3 file with NameLength=0.
 func (fw *FileWriter) createNewFile() error {
+	if len(fw.swampName) > MaxNameLength {
+		return ErrNameTooLong
+	}
+
 	file, err := os.Create(fw.filePath)
 	if err != nil {
 		return err
@@ -157,6 +161,10 @@ func (fw *FileWriter) WriteEntry(entry Entry) error {
 		return ErrFileClosed
 	}
 
+	if err := entry.Validate(); err != nil {
+		return err
+	}
+
 	shouldFlush := fw.buffer.Add(entry)
 	if shouldFlush {
 		return fw.flushLocked()
@@ -175,6 +183,9 @@ func (fw *FileWriter) WriteEntries(entries []Entry) error {
 	}
 
 	for _, entry := range entries {
+		if err := entry.Validate(); err != nil {
+			return err
+		}
 		shouldFlush := fw.buffer.Add(entry)
 		if shouldFlush {
 			if err := fw.flushLocked(); err != nil {
